@@ -1411,7 +1411,22 @@ impl RepDefUnraveler {
     pub fn unravel_validity(&mut self, validity: &mut BooleanBufferBuilder) {
         if self.def_meaning[self.current_layer] == DefinitionInterpretation::AllValidItem {
             self.current_layer += 1;
-            validity.append_n(self.num_items as usize, true);
+            // One bit per slot of this layer.  Above a list that is the number of lists (the
+            // entries still visible at the current rep level), not the number of items.
+            let num_slots = if let Some(def_levels) = self.def_levels.as_ref() {
+                def_levels
+                    .iter()
+                    .filter(|&&level| self.levels_to_rep[level as usize] <= self.current_rep_cmp)
+                    .count()
+            } else if self.current_rep_cmp > 0 {
+                self.rep_levels
+                    .as_ref()
+                    .map(|rep| rep.len())
+                    .unwrap_or(self.num_items as usize)
+            } else {
+                self.num_items as usize
+            };
+            validity.append_n(num_slots, true);
             return;
         }
 
